@@ -156,6 +156,23 @@ Theorem c03_cors_transparent : forall regs m p,
 Proof. intros regs m p. split; [apply cors_transparent|apply cors_preflight]. Qed.
 Print Assumptions c03_cors_transparent.
 
+(* ---- NewServer options: custom not-found / not-allowed handlers, WithCors, WithRouter ---- *)
+(* with WithRouter first (any number of times) or absent, the server answers unmatched requests as
+   the options ask: the custom not-found handler iff the last not-found option is a custom one, the
+   custom / cors not-allowed handler iff the last such option says so, OPTIONS preflights iff WithCors *)
+Theorem c03_server_options : forall k rest, ~ In SRouter rest ->
+  server_conf (repeat SRouter k ++ rest) = want_conf (repeat SRouter k ++ rest).
+Proof. exact server_conf_router_first. Qed.
+Print Assumptions c03_server_options.
+
+(* FINDING: for arbitrary option orders the clause is false of the code - WithRouter after a handler
+   option discards it (the custom handler is never invoked) *)
+Theorem c03_server_options_refuted : exists opts, server_conf opts <> want_conf opts /\
+  server_serve (server_conf opts) [] "GET" [47%N] = SDefault404 /\
+  server_serve (want_conf opts) [] "GET" [47%N] = SCustomNotFound.
+Proof. exists [SNotFound true; SRouter]. vm_compute. repeat split; [discriminate|..]; reflexivity. Qed.
+Print Assumptions c03_server_options_refuted.
+
 (* ---- non-vacuity ---- *)
 Definition b (s : string) : list N := map (fun a => N.of_nat (Ascii.nat_of_ascii a)) (list_ascii_of_string s).
 Definition ex_regs : list reg :=
